@@ -160,7 +160,33 @@ def f_noise(x):
     return (float(math.sin(12345.678 * sum(x)) + 1.0 + 1e-3 * sum(xi * xi for xi in x)),)
 
 
-SINGLE = {"sphere": f_sphere, "ellipsoid": f_ellipsoid, "rastrigin": f_rastrigin, "step": f_step, "noise": f_noise}
+def f_ulp(x):
+    # values one or two ulps apart: comparisons must be exact, never tolerance based
+    return (1.0 + (int(abs(sum(x)) * 1e6) % 3) * 2.0 ** -52,)
+
+
+def f_zero(x):
+    # +0.0 / -0.0: equal fitnesses of different sign bit
+    return (0.0 if x[0] >= 0 else -0.0,)
+
+
+def f_intval(x):
+    # Python ints (not floats)
+    return (int(sum(xi * xi for xi in x) * 8),)
+
+
+def f_bigint(x):
+    # ints above 2**53: several offspring collapse to one float fitness
+    return (2 ** 60 + int(sum(xi * xi for xi in x) * 64),)
+
+
+def f_npfloat(x):
+    return (np.float64(sum(xi * xi for xi in x)),)
+
+
+SINGLE = {"sphere": f_sphere, "ellipsoid": f_ellipsoid, "rastrigin": f_rastrigin, "step": f_step, "noise": f_noise,
+          "ulp": f_ulp, "zero": f_zero, "intval": f_intval, "bigint": f_bigint, "npfloat": f_npfloat,
+          "negsphere": f_negsphere}
 
 
 def mo_two_spheres(x):
@@ -242,6 +268,57 @@ def wv(ind):
     return tuple(float(x) for x in ind.fitness.wvalues)
 
 
+def make_classes(fit_kind, weights, container):
+    """creator classes on demand: fit_kind 'plain' / 'constrained'; container 'list' / 'array' / 'numpy'"""
+    import array
+    from deap import base, creator
+    wname = "_".join(("m" if w < 0 else "p") + str(abs(w)).replace(".", "d") for w in weights)
+    fname = "C14F_%s_%s" % (fit_kind, wname)
+    iname = "C14I_%s_%s_%s" % (fit_kind, wname, container)
+    with warnings.catch_warnings():
+        warnings.simplefilter("ignore")
+        if not hasattr(creator, fname):
+            creator.create(fname, base.ConstrainedFitness if fit_kind == "constrained" else base.Fitness,
+                           weights=tuple(float(w) for w in weights))
+        if not hasattr(creator, iname):
+            F = getattr(creator, fname)
+            if container == "array":
+                creator.create(iname, array.array, typecode="d", fitness=F)
+            elif container == "numpy":
+                creator.create(iname, np.ndarray, fitness=F)
+            else:
+                creator.create(iname, list, fitness=F)
+    return getattr(creator, iname)
+
+
+def fit_matches(ind, values):
+    """the fitness of ind is the fitness obtained by assigning `values` (compared through a fresh
+    fitness object of the same class, so that int / numpy-scalar values are converted the same way)"""
+    fresh = type(ind.fitness)()
+    fresh.values = values
+    return tuple(fresh.wvalues) == tuple(ind.fitness.wvalues)
+
+
+def guarded_call(run, what, case, fn, *a):
+    try:
+        return True, fn(*a)
+    except Exception as e:      # noqa
+        run.oracle_violation("%s raised %s" % (what, type(e).__name__), case, observed=repr(e)[:300])
+        return False, None
+
+
+def plain_expected_params(dim, kargs):
+    lam = kargs.get("lambda_", 1)
+    ptarg = kargs.get("ptarg", 1.0 / (5 + math.sqrt(lam) / 2.0))
+    return {"lambda_": lam, "d": kargs.get("d", 1.0 + dim / (2.0 * lam)), "ptarg": ptarg,
+            "cp": kargs.get("cp", ptarg * lam / (2 + ptarg * lam)), "cc": kargs.get("cc", 2.0 / (dim + 2.0)),
+            "ccov": kargs.get("ccov", 2.0 / (dim ** 2 + 6.0)), "pthresh": kargs.get("pthresh", 0.44)}
+
+
+def params_differ(s, exp):
+    return [k for k, v in exp.items() if not (getattr(s, k) == v or abs(getattr(s, k) - v) <= 1e-15 * abs(v))]
+
+
 # ==============================================================================================
 # (1+lambda), plain
 # ==============================================================================================
@@ -264,61 +341,60 @@ def c_pparams(s):
 def run_plain(ctx, cfg):
     from deap import cma
     run = ctx.run
-    creator = creator_classes()
-    dim, lam, rounds = cfg["dim"], cfg["lambda"], cfg["rounds"]
+    dim, rounds = cfg["dim"], cfg["rounds"]
     maximise = cfg["objective"] == "negsphere"
-    f = f_negsphere if maximise else SINGLE[cfg["objective"]]
-    Ind = creator.C14IndMax if maximise else creator.C14IndMin
+    f = SINGLE[cfg["objective"]]
+    weights = cfg.get("weights", (1.0,) if maximise else (-1.0,))
+    Ind = make_classes("plain", weights, cfg.get("container", "list"))
+    kargs = dict(cfg.get("kargs", {}))
+    if "lambda" in cfg and cfg["lambda"] is not None:
+        kargs["lambda_"] = cfg["lambda"]          # cfg["lambda"] None: lambda_ omitted (default 1)
     rl = RandomLog(cfg["seed"])
     parent = Ind(cfg["parent"])
     parent.fitness.values = f(parent)
-    with Patched(cma, rl):
-        s = cma.StrategyOnePlusLambda(parent, cfg["sigma"], lambda_=lam)
     case0 = dict(cfg, kind="plain")
-    # parameters and initial state
-    ctx.add("CPlainParams %s %s %s" % (cnat(dim), cnat(lam), c_pparams(s)), dict(case0, what="params"))
+    ok, s = guarded_call(run, "StrategyOnePlusLambda()", case0,
+                         lambda: cma.StrategyOnePlusLambda(parent, cfg["sigma"], **kargs))
+    if not ok:
+        return
+    lam = s.lambda_
+    only_lambda = set(kargs) <= {"lambda_"}
+
+    def check_params(case, kargs_now):
+        bad = params_differ(s, plain_expected_params(dim, kargs_now))
+        if bad:
+            run.oracle_violation("(1+lambda): parameters are not the supplied values / documented defaults", case, observed=bad)
+        if set(kargs_now) <= {"lambda_"}:
+            ctx.add("CPlainParams %s %s %s" % (cnat(dim), cnat(s.lambda_), c_pparams(s)), dict(case, what="params"))
+            if not (0.0 < s.cp < 1.0 and 0.0 < s.ptarg < 1.0 and s.d > 0 and 0.0 < s.ccov < 1.0 and 0.0 < s.cc <= 1.0):
+                run.oracle_violation("default parameters outside their ranges", case,
+                                     observed=[s.cp, s.ptarg, s.d, s.ccov, s.cc])
+
+    check_params(case0, kargs)
     st0 = plain_snapshot(s)
     ctx.add("CPlainInit %s %s %s %s %s %s" % (cnat(dim), c_pparams(s), cv(st0["parent"]), cv(st0["pfit"]),
                                            cfloat(cfg["sigma"]), c_pstate(st0)), dict(case0, what="init"))
-    if not (0.0 < s.cp < 1.0 and 0.0 < s.ptarg < 1.0 and s.d > 0 and 0.0 < s.ccov < 1.0 and 0.0 < s.cc <= 1.0):
-        run.oracle_violation("default parameters outside their ranges", case0,
-                             observed=[s.cp, s.ptarg, s.d, s.ccov, s.cc])
-    best_so_far = wv(s.parent)
+    state = {"best": wv(s.parent)}
     send = cfg["send"]
-    nsent = 0
-    for g in range(rounds):
-        pre = plain_snapshot(s)
-        case = dict(case0, round=g)
-        with Patched(cma, rl):
-            pop = s.generate(Ind)
-        log = rl.take()
-        ok_draws = len(log) == 1 and log[0][0] == "normal" and log[0][1].shape == (lam, dim)
-        if not ok_draws:
-            run.oracle_violation("generate consumed unexpected random draws", case, observed=[l[0] for l in log])
-            return
-        arz = log[0][1]
+    relam = cfg.get("relam", {})
+    repeat = cfg.get("repeat_update", ())
+
+    def step(case, pre, pop, g, gen_terms):
+        """update(pop) + oracle + correspondence; pop already evaluated.  False: stop the history."""
+        lam = s.lambda_
         xs = [[float(v) for v in ind] for ind in pop]
-        rt = rtol_for(pre["A"])
-        if len(pop) != lam or any(len(x) != dim for x in xs):
-            run.oracle_violation("generate did not return lambda individuals of the dimension", case, observed=len(pop))
-            return
-        exp_x = np.array(pre["parent"]) + pre["sigma"] * arz.dot(pre["A"].T)
-        if not nclose(np.array(xs), exp_x, rt):
-            run.oracle_violation("offspring are not parent + sigma * A z", case, observed=xs)
-        for ind in pop:
-            ind.fitness.values = f(ind)
         fits = [wv(ind) for ind in pop]
         evaluated = [(list(x), fw) for x, fw in zip(xs, fits)]
         with Patched(cma, rl):
-            s.update(pop)
+            ok, _ = guarded_call(run, "update", case, s.update, pop)
+        if not ok:
+            return False
         if rl.take():
             run.oracle_violation("update consumed random draws", case)
         post = plain_snapshot(s)
         cond = float(np.linalg.cond(post["A"])) if np.all(np.isfinite(post["A"])) else float("inf")
-        # ---------------- oracle ----------------
         best_round = max(fits)
-        prev_best = best_so_far
-        best_so_far = max(best_so_far, best_round)
+        state["best"] = max(state["best"], best_round)
         pw = tuple(post["pfit"])
         replaced = tuple(pre["pfit"]) <= best_round
         ctx.hit("plain.replaced" if replaced else "plain.kept")
@@ -326,12 +402,14 @@ def run_plain(ctx, cfg):
             ctx.hit("plain.tie")
         if pw < tuple(pre["pfit"]):
             run.oracle_violation("(1+lambda): parent fitness got worse", case, observed=[pre["pfit"], post["pfit"]])
-        if pw != best_so_far:
+        if pw != state["best"]:
             run.oracle_violation("(1+lambda): parent fitness is not the best fitness evaluated so far", case,
-                                 observed=[post["pfit"], list(best_so_far)])
-        if tuple(f(s.parent)) != tuple(s.parent.fitness.values):
+                                 observed=[post["pfit"], list(state["best"])])
+        if not fit_matches(s.parent, f(s.parent)):
             run.oracle_violation("(1+lambda): parent fitness does not match its genotype", case,
                                  observed=[list(s.parent.fitness.values), list(f(s.parent))])
+        if any(s.parent is ind or s.parent.fitness is ind.fitness for ind in pop):
+            run.oracle_violation("(1+lambda): parent shares an object with an offspring (later changes by the caller would change the parent)", case)
         if replaced:
             first_best = [x for x, fw in evaluated if fw == best_round][0]
             if post["parent"] != first_best:
@@ -349,13 +427,14 @@ def run_plain(ctx, cfg):
         if not (post["sigma"] > 0.0) or abs(post["sigma"] - exp_sigma) > 1e-9 * exp_sigma:
             run.oracle_violation("(1+lambda): step size not positive / not the success-rule update", case,
                                  observed=[post["sigma"], exp_sigma])
-        # covariance: published success rule
+        if post["psucc"] == s.pthresh:
+            ctx.hit("plain.psucc_eq_pthresh")
         if replaced:
             xb = np.array([x for x, fw in evaluated if fw == best_round][0])
-            step = (xb - np.array(pre["parent"])) / pre["sigma"]
+            stp = (xb - np.array(pre["parent"])) / pre["sigma"]
             if exp_psucc < s.pthresh:
                 ctx.hit("plain.low")
-                epc = (1 - s.cc) * pre["pc"] + math.sqrt(s.cc * (2 - s.cc)) * step
+                epc = (1 - s.cc) * pre["pc"] + math.sqrt(s.cc * (2 - s.cc)) * stp
                 eC = (1 - s.ccov) * pre["C"] + s.ccov * np.outer(epc, epc)
             else:
                 ctx.hit("plain.high")
@@ -373,16 +452,66 @@ def run_plain(ctx, cfg):
                     and nclose(A.dot(A.T), post["C"], rt2)):
                 run.oracle_violation("(1+lambda): A is not a Cholesky factor of C", case, observed=A.tolist())
         run.note_case(case, nontrivial=True, sample=case if g == 0 else None)
-        # ---------------- correspondence ----------------
         if cond < COND_MAX and g in send:
-            nsent += 1
-            ctx.add("CPlainGen %s %s %s %s" % (c_pstate(pre), cvl(arz), cfloat(rt), cvl(xs)), dict(case, what="generate"))
+            for t in gen_terms:
+                ctx.add(t, dict(case, what="generate"))
             obs_pop = [([float(v) for v in ind], list(wv(ind))) for ind in pop]     # sorted in place by update
             ctx.add("CPlainUpd %s %s %s %s %s %s" % (
                 c_pparams(s), c_pstate(pre), clist([cpair(cv(x), cv(fw)) for x, fw in evaluated]), cfloat(rt2),
                 c_pstate(post), clist([cpair(cv(x), cv(fw)) for x, fw in obs_pop])), dict(case, what="update"))
-        if not cond < COND_MAX:
+        return cond < COND_MAX
+
+    for g in range(rounds):
+        if g in relam:
+            # documented route to change lambda: computeParams must be called again
+            kargs = {"lambda_": relam[g]}
+            ctx.hit("plain.lambda_changed")
+            ok, _ = guarded_call(run, "computeParams", dict(case0, round=g), s.computeParams, kargs)
+            if not ok:
+                return
+            check_params(dict(case0, round=g, what="params after computeParams"), kargs)
+        lam = s.lambda_
+        pre = plain_snapshot(s)
+        case = dict(case0, round=g)
+        with Patched(cma, rl):
+            ok, pop = guarded_call(run, "generate", case, s.generate, Ind)
+        if not ok:
+            return
+        log = rl.take()
+        ok_draws = len(log) == 1 and log[0][0] == "normal" and log[0][1].shape == (lam, dim)
+        if not ok_draws:
+            run.oracle_violation("generate consumed unexpected random draws", case, observed=[l[0] for l in log])
+            return
+        arz = log[0][1]
+        xs = [[float(v) for v in ind] for ind in pop]
+        rt = rtol_for(pre["A"])
+        if len(pop) != lam or any(len(x) != dim for x in xs):
+            run.oracle_violation("generate did not return lambda individuals of the dimension", case, observed=len(pop))
+            return
+        exp_x = np.array(pre["parent"]) + pre["sigma"] * arz.dot(pre["A"].T)
+        if not nclose(np.array(xs), exp_x, rt):
+            run.oracle_violation("offspring are not parent + sigma * A z", case, observed=xs)
+        if plain_snapshot(s)["parent"] != pre["parent"] or any(ind is s.parent for ind in pop):
+            run.oracle_violation("generate changed the parent / returned the parent object", case)
+        for ind in pop:
+            ind.fitness.values = f(ind)
+        gen_terms = ["CPlainGen %s %s %s %s" % (c_pstate(pre), cvl(arz), cfloat(rt), cvl(xs))]
+        if not step(case, pre, pop, g, gen_terms):
             break
+        if g in repeat:
+            # the same population object handed to update a second time (no generate in between)
+            ctx.hit("plain.update_twice")
+            if not step(dict(case, second_update=True), plain_snapshot(s), pop, g, []):
+                break
+        # the caller goes on using (and changing) what it passed: the parent must not notice
+        before = plain_snapshot(s)
+        for ind in pop:
+            ind[0] = ind[0] + 1.0
+            del ind.fitness.values
+        after = plain_snapshot(s)
+        if before["parent"] != after["parent"] or before["pfit"] != after["pfit"]:
+            run.oracle_violation("(1+lambda): changing the offspring after update changed the parent", case,
+                                 observed=[before["pfit"], after["pfit"]])
 
 
 # ==============================================================================================
@@ -446,8 +575,7 @@ def fit_lt(a, b):
 def run_active(ctx, cfg):
     from deap import cma
     run = ctx.run
-    creator = creator_classes()
-    dim, lam, rounds = cfg["dim"], cfg["lambda"], cfg["rounds"]
+    dim, rounds = cfg["dim"], cfg["rounds"]
     specs = cfg["constraints"]
     if isinstance(specs, int):
         specs = default_constraint_specs(dim, specs)
@@ -455,11 +583,20 @@ def run_active(ctx, cfg):
     f = SINGLE[cfg["objective"]]
     cons = make_constraints(specs)
     mode = cfg.get("parent_mode", "bare" if cfg.get("bare_parent") else "feasible")
-    Ind = creator.C14IndCon if ncons else creator.C14IndMin
+    weights = cfg.get("weights", (-1.0,))
+    Ind = make_classes("constrained" if ncons else "plain", weights, cfg.get("container", "list"))
+    kargs = dict(cfg.get("kargs", {}))
+    if cfg.get("lambda") is not None:
+        kargs["lambda_"] = cfg["lambda"]
+    skip_eval = cfg.get("skip_eval", 0.0)      # plain Fitness only: some offspring are left unevaluated
+    skip_rng = np.random.RandomState(cfg["seed"] ^ 0x5EED)
     rl = RandomLog(cfg["seed"])
     case0 = dict(cfg, kind="active")
 
-    def evaluate(ind):
+    def evaluate(ind, may_skip=False):
+        if may_skip and not ncons and skip_eval and skip_rng.rand() < skip_eval:
+            ctx.hit("active.unevaluated_offspring")
+            return
         if ncons:
             cvio = tuple(c(ind) for c in cons)
             if not any(cvio):
@@ -478,15 +615,34 @@ def run_active(ctx, cfg):
     ctx.hit("active.start_" + mode + ("_violating" if hasattr(parent, "fitness") and violates(fit_tuple(parent.fitness)) else ""))
     steps = cfg["steps"]
     with Patched(cma, rl):
-        s = cma.StrategyActiveOnePlusLambda(parent, cfg["sigma"], steps, lambda_=lam)
-    ctx.add("CActParams %s %s %s %s %s" % (cnat(dim), cnat(lam), cfloat(s.ccovn), cv(steps), c_aparams(s)),
-            dict(case0, what="params"))
+        ok, s = guarded_call(run, "StrategyActiveOnePlusLambda()", case0,
+                             lambda: cma.StrategyActiveOnePlusLambda(parent, cfg["sigma"], steps, **kargs))
+    if not ok:
+        return
+    lam = s.lambda_
+
+    def check_params(case, kargs_now):
+        lam_ = kargs_now.get("lambda_", 1)
+        ptarg = kargs_now.get("ptarg", 1.0 / (5 + math.sqrt(lam_) / 2.0))
+        exp = {"lambda_": lam_, "d": kargs_now.get("d", 1.0 + dim / (2.0 * lam_)), "ptarg": ptarg,
+               "cp": kargs_now.get("cp", ptarg * lam_ / (2 + ptarg * lam_)), "cc": kargs_now.get("cc", 2.0 / (dim + 2.0)),
+               "ccovp": kargs_now.get("ccovp", 2.0 / (dim ** 2 + 6.0)), "ccovn": kargs_now.get("ccovn", 0.4 / (dim ** 1.6 + 1.0)),
+               "cconst": kargs_now.get("cconst", 1.0 / (dim + 2.0)), "beta": kargs_now.get("beta", 0.1 / (lam_ * (dim + 2.0))),
+               "pthresh": kargs_now.get("pthresh", 0.44)}
+        bad = params_differ(s, exp)
+        if bad:
+            run.oracle_violation("active: parameters are not the supplied values / documented defaults", case, observed=bad)
+        if set(kargs_now) <= {"lambda_"}:
+            ctx.add("CActParams %s %s %s %s %s" % (cnat(dim), cnat(s.lambda_), cfloat(s.ccovn), cv(steps), c_aparams(s)),
+                    dict(case, what="params"))
+            if not (0.0 < s.cp < 1.0 and 0.0 < s.ptarg < 1.0 and 0.0 < s.ccovp < 1.0 and s.ccovn >= 0 and 0 < s.beta < 1
+                    and s.ccovp * (1 + s.cc * (2 - s.cc)) < 1):
+                run.oracle_violation("active: default parameters outside their ranges", case)
+
+    check_params(case0, kargs)
     st0 = act_snapshot(s)
     ctx.add("CActInit %s %s %s %s %s %s" % (cnat(dim), c_aparams(s), cv(st0["parent"]), copt(st0["pfit"], c_fit_t),
                                          cfloat(cfg["sigma"]), c_astate(st0)), dict(case0, what="init"))
-    if not (0.0 < s.cp < 1.0 and 0.0 < s.ptarg < 1.0 and 0.0 < s.ccovp < 1.0 and s.ccovn >= 0 and 0 < s.beta < 1
-            and s.ccovp * (1 + s.cc * (2 - s.cc)) < 1):
-        run.oracle_violation("active: default parameters outside their ranges", case0)
     # observers around the two internal update steps (instance attributes; behaviour unchanged)
     trace = []
     orig_r1, orig_inf = s._rank1update, s._infeasible_update
@@ -521,11 +677,27 @@ def run_active(ctx, cfg):
 
     best_so_far = st0["pfit"] if (st0["pfit"] is not None and len(st0["pfit"][0]) > 0) else None
     send = cfg["send"]
+    relam = cfg.get("relam", {})
+    inject = cfg.get("inject", {})
     for g in range(rounds):
+        if g in relam:
+            # the documented route: assigning lambda_ recomputes the lambda-dependent parameters
+            ctx.hit("active.lambda_changed")
+            s.lambda_ = relam[g]
+            kargs = dict(kargs, lambda_=relam[g])
+            check_params(dict(case0, round=g, what="params after lambda_ assignment"), kargs)
+        if g in inject:
+            # public attributes reassigned by the caller between two rounds (exact threshold values)
+            ctx.hit("active.state_injected")
+            for k, v in inject[g].items():
+                setattr(s, k, np.array(v, dtype=float) if isinstance(v, list) else v)
+        lam = s.lambda_
         pre = act_snapshot(s)
         case = dict(case0, round=g)
         with Patched(cma, rl):
-            pop = s.generate(Ind)
+            ok, pop = guarded_call(run, "active generate", case, s.generate, Ind)
+        if not ok:
+            return
         log = rl.take()
         # ---- draws consumed by generate ----
         kinds = [l[0] for l in log]
@@ -555,7 +727,7 @@ def run_active(ctx, cfg):
             run.oracle_violation("active: generate consumed unexpected random draws", case, observed=kinds)
             return
         if n_iir:
-            ctx.hit("active.integer_mutation")
+            ctx.hit("active.integer_mutation_all" if n_iir == dim else "active.integer_mutation")
         xs = [[float(v) for v in ind] for ind in pop]
         ys = [[float(v) for v in ind._y] for ind in pop]
         zs = [[float(v) for v in ind._z] for ind in pop]
@@ -577,7 +749,7 @@ def run_active(ctx, cfg):
                     run.oracle_violation("active: continuous coordinate is not parent + sigma * y", case,
                                          observed=[xs[kx][j], float(row[j])])
         for ind in pop:
-            evaluate(ind)
+            evaluate(ind, may_skip=True)
         fts = [fit_tuple(ind.fitness) for ind in pop]
         valid = [ft for ft in fts if len(ft[0]) > 0]
         del trace[:]
@@ -587,7 +759,9 @@ def run_active(ctx, cfg):
             proxy.linalg = LinalgProxy()
             with warnings.catch_warnings():
                 warnings.simplefilter("ignore")
-                s.update(pop)
+                ok, _ = guarded_call(run, "active update", case, s.update, pop)
+        if not ok:
+            return
         if rl.take():
             run.oracle_violation("active: update consumed random draws", case)
         post = act_snapshot(s)
@@ -615,8 +789,10 @@ def run_active(ctx, cfg):
         if best_so_far is not None and (post["pfit"] is None or post["pfit"][0] != best_so_far[0]):
             run.oracle_violation("active: parent fitness is not the best fitness evaluated so far", case,
                                  observed=[post["pfit"], best_so_far])
+        if hasattr(s.parent, "fitness") and any(s.parent is ind or s.parent.fitness is ind.fitness for ind in pop):
+            run.oracle_violation("active: parent shares an object with an offspring", case)
         if hasattr(s.parent, "fitness") and s.parent.fitness.valid:
-            if tuple(f(s.parent)) != tuple(s.parent.fitness.values) or (ncons and any(c(s.parent) for c in cons)):
+            if not fit_matches(s.parent, f(s.parent)) or (ncons and any(c(s.parent) for c in cons)):
                 run.oracle_violation("active: parent fitness does not match its genotype", case,
                                      observed=[list(s.parent.fitness.values), list(f(s.parent))])
         if replaced:
@@ -635,6 +811,8 @@ def run_active(ctx, cfg):
                                      observed=[post["psucc"], exp_psucc])
         if not (post["sigma"] > 0.0):
             run.oracle_violation("active: step size not positive", case, observed=post["sigma"])
+        if post["psucc"] == s.pthresh:
+            ctx.hit("active.psucc_eq_pthresh")
         # ---------------- oracle: factors, step by step ----------------
         if finite and cond < COND_MAX:
             for (kind, a, ind, p_succ, b) in trace:
@@ -675,10 +853,18 @@ def run_active(ctx, cfg):
                         run.oracle_violation("active: covariance adaptation is not alpha*C + beta*v v^T with alpha > 0", case,
                                              observed=[al, be])
                 else:
-                    ctx.hit("active.constraint_update")
                     ft = fit_tuple(ind.fitness)
+                    if ft[1] is None:
+                        # fitness without constraint_violation attribute: _infeasible_update must do nothing
+                        ctx.hit("active.infeasible_without_cv_attribute")
+                        if not (np.array_equal(a["A"], b["A"]) and np.array_equal(a["invA"], b["invA"])):
+                            run.oracle_violation("active: unevaluated offspring without constraint information changed the factors", case)
+                        continue
+                    ctx.hit("active.constraint_update")
                     nviol = sum(ft[1])
-                    if nviol == 1 and b["cvecs"] is not None:
+                    if np.array_equal(a["A"], b["A"]):
+                        ctx.hit("active.constraint_update_ignored_singular")
+                    elif nviol == 1 and b["cvecs"] is not None:
                         i = list(ft[1]).index(True)
                         vv = b["cvecs"][i]
                         w = a["invA"].dot(vv)
@@ -693,10 +879,26 @@ def run_active(ctx, cfg):
                 cnat(dim), c_aparams(s), c_astate(pre), cvl(z), cv(us), cv(gs), clist([clist([cz(v) for v in r]) for r in pm]),
                 cfloat(rt), obs_gen), dict(case, what="generate"))
             cpop = clist(["(AI %s %s %s %s)" % (cv(x), cv(y), cv(zz), c_fit_t(ft)) for x, y, zz, ft in zip(xs, ys, zs, fts)])
-            cinvs = clist([copt(m, cm) for m in inv_log])
+            # one oracle slot per invalid individual, in order: None where inv was not called
+            # (no constraint_violation attribute) or raised LinAlgError
+            il = list(inv_log)
+            slots = []
+            for ft in fts:
+                if len(ft[0]) == 0:
+                    slots.append(il.pop(0) if (ft[1] is not None and il) else None)
+            cinvs = clist([copt(m, cm) for m in slots])
             rt3 = RTOL * max([1.0, cond] + [float(np.linalg.cond(t[4]["A"])) for t in trace])
             ctx.add("CActUpd %s %s %s %s %s %s %s" % (cnat(dim), c_aparams(s), c_astate(pre), cpop, cinvs, cfloat(rt3),
                                                    c_astate(post)), dict(case, what="update"))
+        # the caller goes on changing what it passed: the parent must not notice
+        before = act_snapshot(s)
+        for ind in pop:
+            ind[0] = ind[0] + 1.0
+            if ind.fitness.valid:
+                del ind.fitness.values
+        after = act_snapshot(s)
+        if before["parent"] != after["parent"] or before["pfit"] != after["pfit"] or before["anc"] != after["anc"]:
+            run.oracle_violation("active: changing the offspring after update changed the parent / ancestors", case)
         if not (finite and cond < COND_MAX):
             break
 
@@ -743,18 +945,41 @@ def run_mo(ctx, cfg):
     from deap import cma, tools
     from deap.tools import indicator as indicator_mod
     run = ctx.run
-    creator = creator_classes()
-    dim, lam, mu, rounds = cfg["dim"], cfg["lambda"], cfg["mu"], cfg["rounds"]
+    dim, rounds = cfg["dim"], cfg["rounds"]
     f = MULTI[cfg["objective"]]
-    Ind = creator.C14IndMO
+    Ind = make_classes("plain", cfg.get("weights", (-1.0, -1.0)), cfg.get("container", "list"))
     rl = RandomLog(cfg["seed"])
     case0 = dict(cfg, kind="mo")
     population = [Ind(p) for p in cfg["parents"]]
     for ind in population:
         ind.fitness.values = f(ind)
+    kargs = dict(cfg.get("kargs", {}))
+    if cfg.get("mu") is not None:
+        kargs["mu"] = cfg["mu"]                 # None: mu omitted (defaults to len(population))
+    if cfg.get("lambda") is not None:
+        kargs["lambda_"] = cfg["lambda"]        # None: lambda_ omitted (defaults to 1)
+    custom_calls = []
+    if cfg.get("explicit_indicator"):
+        def custom_indicator(front, **kw):
+            custom_calls.append(len(front))
+            return tools.hypervolume(front, **kw)
+        kargs["indicator"] = custom_indicator
     with Patched(cma, rl):
-        s = cma.StrategyMultiObjective(population, cfg["sigma"], mu=mu, lambda_=lam)
-    ctx.add("CMoParams %s %s %s %s" % (cnat(dim), cnat(mu), cnat(lam), c_mparams(s)), dict(case0, what="params"))
+        ok, s = guarded_call(run, "StrategyMultiObjective()", case0,
+                             lambda: cma.StrategyMultiObjective(population, cfg["sigma"], **kargs))
+    if not ok:
+        return
+    mu, lam = s.mu, s.lambda_
+    ptarg = kargs.get("ptarg", 1.0 / (5.0 + 0.5))
+    exp_params = {"mu": kargs.get("mu", len(population)), "lambda_": kargs.get("lambda_", 1),
+                  "d": kargs.get("d", 1.0 + dim / 2.0), "ptarg": ptarg, "cp": kargs.get("cp", ptarg / (2.0 + ptarg)),
+                  "cc": kargs.get("cc", 2.0 / (dim + 2.0)), "ccov": kargs.get("ccov", 2.0 / (dim ** 2 + 6.0)),
+                  "pthresh": kargs.get("pthresh", 0.44)}
+    bad = params_differ(s, exp_params)
+    if bad:
+        run.oracle_violation("MO: parameters are not the supplied values / documented defaults", case0, observed=bad)
+    if set(kargs) <= {"mu", "lambda_", "indicator"}:
+        ctx.add("CMoParams %s %s %s %s" % (cnat(dim), cnat(mu), cnat(lam), c_mparams(s)), dict(case0, what="params"))
     st_init = mo_snapshot(s)
     ctx.add("CMoInit %s %s %s %s %s" % (cnat(dim), c_mparams(s),
                                      clist([cpair(cv(x), cv(w)) for x, w in zip(st_init["parents"], st_init["pfits"])]),
@@ -784,8 +1009,16 @@ def run_mo(ctx, cfg):
     for g in range(rounds):
         pre = mo_snapshot(s)
         case = dict(case0, round=g)
+        if g in cfg.get("double_generate", ()):
+            # a generated population that is thrown away: generate again before any update
+            ctx.hit("mo.generate_twice")
+            with Patched(cma, rl):
+                guarded_call(run, "MO generate", case, s.generate, Ind)
+            rl.take()
         with Patched(cma, rl):
-            pop = s.generate(Ind)
+            ok, pop = guarded_call(run, "MO generate", case, s.generate, Ind)
+        if not ok:
+            return
         log = rl.take()
         if not log or log[0][0] != "normal" or log[0][1].shape != (lam, dim):
             run.oracle_violation("MO: generate consumed unexpected random draws", case, observed=[l[0] for l in log])
@@ -823,14 +1056,21 @@ def run_mo(ctx, cfg):
                                  observed=[list(t) for t in tags])
         for ind in pop:
             ind.fitness.values = f(ind)
+        if g in cfg.get("clone_before_update", ()):
+            # algorithms commonly clone what generate returned before handing it to update
+            ctx.hit("mo.update_with_clones")
+            pop = [copy.deepcopy(ind) for ind in pop]
         cands = list(pop) + list(s.parents)
         cand_id = {id(c): i for i, c in enumerate(cands)}
         cand_wv = [wv(c) for c in cands]
         cand_tag = [tuple(c._ps) for c in cands]
         del hv_log[:]
         del sel_log[:]
+        del custom_calls[:]
         with Patched(cma, rl):
-            s.update(pop)
+            ok, _ = guarded_call(run, "MO update", case, s.update, pop)
+        if not ok:
+            return
         if rl.take():
             run.oracle_violation("MO: update consumed random draws", case)
         post = mo_snapshot(s)
@@ -840,7 +1080,9 @@ def run_mo(ctx, cfg):
         # ---------------- oracle: selection ----------------
         ok_sel = True
         chosen = [cand_id.get(i) for i in post["ids"]]
-        if len(post["parents"]) != mu or any(c is None for c in chosen) or len(set(chosen)) != len(chosen):
+        if len(cands) <= mu:
+            ctx.hit("mo.fewer_candidates_than_mu")
+        if len(post["parents"]) != min(mu, len(cands)) or any(c is None for c in chosen) or len(set(chosen)) != len(chosen):
             run.oracle_violation("MO: not exactly mu parents chosen among offspring and old parents", case,
                                  observed=len(post["parents"]))
             ok_sel = False
@@ -857,6 +1099,9 @@ def run_mo(ctx, cfg):
             ref = np.max(-np.array(cand_wv), axis=0) + 1
             if removed:
                 ctx.hit("mo.hv_removal")
+            if cfg.get("explicit_indicator") and len(custom_calls) != len(removed):
+                run.oracle_violation("MO: the indicator supplied by the caller was not the one used", case,
+                                     observed=[len(custom_calls), len(removed)])
             if len(hv_log) != len(removed):
                 run.oracle_violation("MO: number of indicator calls differs from the number of discarded mid-front members", case,
                                      observed=[len(hv_log), len(removed)])
@@ -1037,6 +1282,110 @@ def main(run):
                "parent_mode": mode, "rounds": rounds, "seed": rng.randrange(2 ** 31)}
         cfg["send"] = (set(range(6)) | pick_send(rng, rounds, run.scale(8, 14))) if dim <= 6 else set()
         run_active(ctx, cfg)
+    # ---------------- hardening round: sequences, aliasing, value domains, rare routes, boundaries ----------------
+    def short_send(r):
+        return set(range(min(r, 4))) | pick_send(rng, r, run.scale(7, 12))
+
+    reps = run.scale(1, 4)
+    for rep in range(reps):
+        r = run.scale(24, 60)
+        sd = lambda: rng.randrange(2 ** 31)
+        d3 = lambda: rng.randint(2, 5)
+        thr = {"cp": 0.5, "ptarg": 0.25, "pthresh": 0.625}     # lambda 1: psucc hits pthresh exactly after a success
+        thr2 = {"cp": 0.5, "ptarg": 0.25, "pthresh": 0.125}   # ... after a failure
+        allk = {"d": 3.0, "ptarg": 0.2, "cp": 0.1, "cc": 0.3, "ccov": 0.05, "pthresh": 0.3}
+        plain_cfgs = [
+            {"lambda": None, "objective": "sphere"},
+            {"lambda": 1, "objective": "sphere", "kargs": thr}, {"lambda": 1, "objective": "sphere", "kargs": thr2},
+            {"lambda": 5, "objective": "ellipsoid", "kargs": allk},
+            {"lambda": 4, "objective": "sphere", "relam": {5: 10, 12: 1, 18: 3}},
+            {"lambda": 3, "objective": "step", "repeat_update": (1, 2, 5, 9)},
+            {"lambda": 4, "objective": "sphere", "container": "array", "repeat_update": (3,)},
+            {"lambda": 4, "objective": "rastrigin", "container": "numpy"},
+            {"lambda": 3, "objective": "sphere", "weights": (-2.0,)},
+            {"lambda": 3, "objective": "sphere", "weights": (0.5,)},
+            {"lambda": 5, "objective": "ulp"}, {"lambda": 5, "objective": "zero"}, {"lambda": 4, "objective": "intval"},
+            {"lambda": 6, "objective": "bigint"}, {"lambda": 3, "objective": "npfloat", "container": "numpy"},
+            {"lambda": 4, "objective": "sphere", "offset": 1e9, "sigma": 1e-3},
+            {"lambda": 4, "objective": "sphere", "offset": 0.0, "scale": 1e-9, "sigma": 1e-9},
+            {"lambda": 2, "objective": "sphere", "sigma": 1e-12}, {"lambda": 2, "objective": "sphere", "sigma": 1e6},
+            {"lambda": 3, "objective": "sphere", "dim": 1}, {"lambda": 1, "objective": "step", "dim": 1},
+        ]
+        for c in plain_cfgs:
+            dim = c.pop("dim", d3())
+            off, sc = c.pop("offset", 0.0), c.pop("scale", 1.0)
+            cfg = dict({"dim": dim, "sigma": 0.5, "rounds": r, "seed": sd(),
+                        "parent": [off + sc * v for v in rparent(dim)]}, **c)
+            cfg["send"] = short_send(r)
+            cfg["hardening"] = True
+            run_plain(ctx, cfg)
+        allka = {"d": 2.5, "ptarg": 0.2, "cp": 0.15, "cc": 0.3, "ccovp": 0.07, "ccovn": 0.05, "cconst": 0.2,
+                 "beta": 0.02, "pthresh": 0.35}
+        act_cfgs = [
+            {"lambda": None, "objective": "sphere", "constraints": 0},
+            {"lambda": 4, "objective": "sphere", "constraints": 2, "kargs": allka},
+            {"lambda": 1, "objective": "sphere", "constraints": 0, "kargs": thr},
+            {"lambda": 1, "objective": "sphere", "constraints": 0, "kargs": thr2},
+            {"lambda": 4, "objective": "sphere", "constraints": 1, "relam": {4: 10, 9: 1, 15: 5}},
+            {"lambda": 4, "objective": "ellipsoid", "constraints": 0, "container": "array"},
+            {"lambda": 4, "objective": "sphere", "constraints": 2, "container": "numpy"},
+            {"lambda": 3, "objective": "sphere", "constraints": 0, "container": "numpy", "parent_mode": "bare"},
+            {"lambda": 5, "objective": "sphere", "constraints": 0, "skip_eval": 0.35},
+            {"lambda": 1, "objective": "step", "constraints": 0, "skip_eval": 0.5},
+            {"lambda": 2, "objective": "sphere", "constraints": 0, "sigma": 0.01, "far": 6.0,
+             "inject": {3: {"pc": "1e-8", "psucc": 0.9}, 8: {"pc": "1.0000001e-8", "psucc": 0.9}, 12: {"pc": "0", "psucc": 0.9}}},
+            {"lambda": 2, "objective": "sphere", "constraints": 1, "kargs": {"beta": 1.0}},
+            {"lambda": 6, "objective": "sphere", "constraints": 0, "steps_all": 4.0},
+            {"lambda": 3, "objective": "sphere", "constraints": 1, "weights": (-3.0,)},
+            {"lambda": 4, "objective": "ulp", "constraints": 0}, {"lambda": 4, "objective": "zero", "constraints": 1},
+            {"lambda": 4, "objective": "bigint", "constraints": 0}, {"lambda": 4, "objective": "npfloat", "constraints": 2},
+            {"lambda": 3, "objective": "sphere", "constraints": 0, "offset": 1e9, "sigma": 1e-3},
+            {"lambda": 3, "objective": "sphere", "constraints": 0, "scale": 1e-9, "sigma": 1e-9},
+            {"lambda": 3, "objective": "sphere", "constraints": 0, "dim": 1}, {"lambda": 1, "objective": "noise", "constraints": 0, "dim": 1},
+        ]
+        for c in act_cfgs:
+            dim = c.pop("dim", d3())
+            off, sc, far = c.pop("offset", 0.0), c.pop("scale", 1.0), c.pop("far", 0.0)
+            steps = [c.pop("steps_all", 0.0)] * dim
+            parent = [off + sc * (far + round(rng.uniform(1.0, 3.0), 3)) for _ in range(dim)]
+            if steps[0] > 0:
+                parent = [round(p / steps[0]) * steps[0] for p in parent]
+            if "inject" in c:
+                val = {"1e-8": 1e-8, "1.0000001e-8": 1.0000001e-8, "0": 0.0}
+                c["inject"] = {g: {"pc": [val[v["pc"]]] * dim, "psucc": v["psucc"]} for g, v in c["inject"].items()}
+            if c["constraints"] and dim == 1:
+                c["constraints"] = 0
+            cfg = dict({"dim": dim, "sigma": 0.5, "rounds": r, "seed": sd(), "parent": parent, "steps": steps}, **c)
+            cfg["send"] = short_send(r)
+            cfg["hardening"] = True
+            run_active(ctx, cfg)
+        allkm = {"d": 2.0, "ptarg": 0.25, "cp": 0.2, "cc": 0.4, "ccov": 0.1, "pthresh": 0.4}
+        mo_cfgs = [
+            {"mu": None, "lambda": 3, "npar": 4}, {"mu": 3, "lambda": None, "npar": 3},
+            {"mu": 3, "lambda": 3, "npar": 3, "explicit_indicator": True}, {"mu": 4, "lambda": 2, "npar": 4, "explicit_indicator": True},
+            {"mu": 3, "lambda": 3, "npar": 3, "kargs": allkm}, {"mu": 2, "lambda": 5, "npar": 2, "kargs": allkm},
+            {"mu": 3, "lambda": 3, "npar": 3, "weights": (-1.0, 1.0)}, {"mu": 4, "lambda": 2, "npar": 4, "weights": (-2.0, -0.5)},
+            {"mu": 3, "lambda": 3, "npar": 3, "container": "array"}, {"mu": 3, "lambda": 2, "npar": 3, "container": "numpy"},
+            {"mu": 6, "lambda": 2, "npar": 2}, {"mu": 5, "lambda": 1, "npar": 1},       # fewer initial parents than mu
+            {"mu": 2, "lambda": 2, "npar": 5}, {"mu": 2, "lambda": 3, "npar": 5},       # more initial parents than mu
+            {"mu": 3, "lambda": 3, "npar": 3, "double_generate": (0, 2, 3, 7), "clone_before_update": (1, 2, 5, 6)},
+            {"mu": 3, "lambda": 4, "npar": 3, "double_generate": (1, 4), "clone_before_update": (0, 4, 8)},
+            {"mu": 4, "lambda": 4, "npar": 4, "identical": True}, {"mu": 3, "lambda": 2, "npar": 3, "identical": True, "objective": "stepped"},
+            {"mu": 1, "lambda": 1, "npar": 1}, {"mu": 1, "lambda": 4, "npar": 1},
+            {"mu": 2, "lambda": 2, "npar": 2, "dim": 1}, {"mu": 3, "lambda": 2, "npar": 3, "dim": 1},
+            {"mu": 3, "lambda": 3, "npar": 3, "offset": 1e6, "sigma": 1e-3}, {"mu": 3, "lambda": 3, "npar": 3, "sigma": 1e-9, "scale": 1e-9},
+        ]
+        for c in mo_cfgs:
+            dim = c.pop("dim", d3())
+            npar, ident = c.pop("npar"), c.pop("identical", False)
+            off, sc = c.pop("offset", 0.0), c.pop("scale", 1.0)
+            first = [off + sc * v for v in rparent(dim, -1.0, 1.0)]
+            parents = [list(first) if ident else [off + sc * v for v in rparent(dim, -1.0, 1.0)] for _ in range(npar)]
+            cfg = dict({"dim": dim, "sigma": 0.5, "rounds": r, "seed": sd(), "parents": parents,
+                        "objective": ["two_spheres", "zdt1", "stepped"][rep % 3]}, **c)
+            cfg["send"] = short_send(r)
+            cfg["hardening"] = True
+            run_mo(ctx, cfg)
     # ---------------- plain (1+lambda) ----------------
     n_hist = run.scale(16, 90)
     for h in range(n_hist):
